@@ -53,6 +53,12 @@ def run (t : Tier) : Emit Unit := do
     let spec := tablePositions m [0, 0x1000, 0x1001] (·.sectionsEnd)
     emit "C02" (demuxCase bs { view := .tablepos, size := if auto then 0 else 188 } none (some spec) "tables-no-readahead")
 
+  -- the PAT also lists programme 0 -> network PID 0x10 (as DVB multiplexes do): the NIT on that PID is an SI table like
+  -- any other, delivered when its unit ends, not a PMT
+  for _ in [0:(if t.quick then 6 else 40)] do
+    let m ← liftGen (genStream { pesPIDs := [0x100, 0x101], pmtPIDs := [0x1000], dvb := true, unitsPerPID := 3, networkPID := true })
+    emit "C02" (demuxCase m.bytes { view := .perpid } none (some (showPerPID m.expected 0 "eof")) "pat-with-network-pid")
+    emit "C02" (demuxCase m.bytes { view := .items } none none "pat-with-network-pid")
   -- a unit of the PMT PID in front of the PAT (a capture that starts mid-cycle; it carries nothing decodable): the PMTs that
   -- follow the PAT are still returned by the calls that read their final packets
   for i in [0:(if t.quick then 6 else 30)] do
